@@ -101,6 +101,9 @@ Seeds == {Un(<<Leaf("int"), Leaf("str")>>), Un(<<Leaf("int"), Leaf("None")>>), U
           H("list", <<Un(<<Leaf("int"), Leaf("str")>>)>>, <<>>), H("tuple", <<Leaf("int"), Lit(<<"i1", "bT">>)>>, <<>>),
           H("type", <<Un(<<Leaf("int"), Leaf("str")>>)>>, <<>>), Leaf("G"), Leaf("GB"), Leaf("GC"), H("list", <<Leaf("GC")>>, <<>>),
           Un(<<H("list", <<Leaf("int")>>, <<>>), H("list", <<Leaf("str")>>, <<>>)>>), H("optional", <<Lit(<<"s_a", "s_b">>)>>, <<>>),
+          \* members that differ only in a nested Literal whose values have the same text ("1" and 1)
+          Un(<<H("list", <<Lit(<<"s_1">>)>>, <<>>), H("list", <<Lit(<<"i1">>)>>, <<>>)>>),
+          Un(<<H("dict", <<Leaf("str"), Lit(<<"i1">>)>>, <<>>), H("dict", <<Leaf("str"), Lit(<<"s_1">>)>>, <<>>), Leaf("None")>>),
           Un(<<Lit(<<"none", "s_a">>), Lit(<<"s_b">>)>>), Un(<<H("dict", <<Leaf("str"), Leaf("int")>>, <<>>), H("dict", <<Leaf("str"), Leaf("str")>>, <<>>)>>)}
 
 VARIABLES h, prev, rule, keeps, n, root, allkeeps
